@@ -89,6 +89,18 @@ func genC15(tier string, r *rng) {
 	cn := asn1.ObjectIdentifier{2, 5, 4, 3}
 	oids := []asn1.ObjectIdentifier{cn, {2, 5, 4, 6}, {2, 5, 4, 10}, {2, 5, 4, 11}, {2, 5, 4, 7}, {2, 5, 4, 8}, {2, 5, 4, 5}, {2, 5, 4, 97},
 		{2, 5, 4, 65}, {1, 2, 840, 113549, 1, 9, 1}, {0, 9, 2342, 19200300, 100, 1, 25}, {1, 3, 6, 1, 4, 1, 311, 60, 2, 1, 3}, {2, 5, 4, 200}, {2, 999, 3}}
+	// relatives of table OIDs: the arc itself, descendants, siblings, same tail under another prefix
+	for _, base := range []asn1.ObjectIdentifier{{2, 5, 4, 3}, {2, 5, 4, 10}, {2, 5, 4, 6}, {2, 5, 4, 97}, {2, 5, 4, 0}} {
+		rel := []asn1.ObjectIdentifier{
+			append(append(asn1.ObjectIdentifier{}, base...), 1), append(append(asn1.ObjectIdentifier{}, base...), 0, 7),
+			base[:3], {2, 5, 5, base[3]}, {1, 5, 4, base[3]}, {2, 5, 4, base[3] + 100}, {2, 5, 4, base[3], 0}, {2, 4, base[3]},
+		}
+		oids = append(oids, rel...)
+		for _, o := range rel {
+			emitDN([][]atv{{{o, "bank.example", 0}}})
+			emitDN([][]atv{{{base, "a", 0}}, {{o, "b", 0}}})
+		}
+	}
 	syms := []string{",", "+", "\"", "\\", "<", ">", ";", "#", " ", "a", "é", "=", "\x00"}
 	maxLen := 3
 	if tier == "thorough" {
